@@ -93,7 +93,7 @@ func tag(exec, h uint64) uint64 {
 }
 
 // NumPanicKinds is the number of kinds of panic values the stubs can raise.
-const NumPanicKinds = 9
+const NumPanicKinds = 10
 
 // Poison tokens mark values that a Bare program stores into its argument
 // variables once the first user function has been entered.
